@@ -34,6 +34,11 @@ pub struct WireCase {
     pub version: u8,
     pub outbound: bool,
     pub ops: Vec<crate::props::holder::Op>,
+    /// 0 = no; k > 0: after the history a SetupChannel is sent through a channel handler for a
+    /// (peer, dbid) that was never announced with NewChannel (k % 3: well-formed / holder delay
+    /// out of range / counterparty delay out of range); it is refused and must change nothing
+    #[serde(default)]
+    pub setup_unannounced: u8,
 }
 
 pub struct C10;
@@ -73,6 +78,44 @@ impl C10 {
             if m.refusals_watched > watched && next > 0 {
                 st.class("wire:refused_message_compared");
                 st.nontrivial_shape(("wire", so.kind, so.err.chars().take(48).collect::<String>(), next, wc.version));
+            }
+        }
+        if wc.setup_unannounced > 0 && !m.dead {
+            let mut spec = crate::world::ChanSpec::basic(30 + (wc.setup_unannounced as u64 / 3));
+            spec.anchors = case.anchors;
+            spec.peer = 2;
+            let before = (observe(m.w.node()), m.w.store_dump());
+            let r = m.w.setup_unannounced(&spec, wc.setup_unannounced);
+            st.class(format!("wire:setup-unannounced:{}", r.tag()));
+            if r.is_err() {
+                let after = (observe(m.w.node()), m.w.store_dump());
+                let mut diffs: Vec<String> = vec![];
+                for (k, v) in before.0.channels.iter() {
+                    match after.0.channels.get(k) {
+                        Some(v2) => diff_values("channel", v, v2, &mut diffs),
+                        None => diffs.push("channel(removed)".into()),
+                    }
+                }
+                for k in after.0.channels.keys() {
+                    if !before.0.channels.contains_key(k) {
+                        diffs.push("channel(added)".into());
+                    }
+                }
+                diff_values("node", &before.0.node, &after.0.node, &mut diffs);
+                diff_values("tracker", &before.0.tracker, &after.0.tracker, &mut diffs);
+                if before.1 != after.1 {
+                    let keys_b: std::collections::BTreeSet<&String> = before.1.iter().map(|(k, _, _)| k).collect();
+                    let added: Vec<String> = after.1.iter().filter(|(k, _, _)| !keys_b.contains(k)).map(|(k, _, _)| k.split('/').next().unwrap_or("").to_string()).collect();
+                    diffs.push(if added.is_empty() { "store(entry-changed)".to_string() } else { format!("store(entry-added:{})", added[0]) });
+                }
+                if let Some(d) = diffs.first() {
+                    ctx.report(st, Violation::new(
+                        format!("C10:wire:refused-message-mutated-state:SetupChannel(unannounced):{}", strip_ids(d)),
+                        format!("SetupChannel for a channel that was never announced (protocol v{}, variant {}) was refused with '{}' but state changed: {:?}", wc.version, wc.setup_unannounced % 3, r.err_msg(), diffs),
+                    ))?;
+                } else {
+                    st.class("wire:refused_message_compared");
+                }
             }
         }
         st.sample = Some(json!({"wire": wc.version, "anchors": case.anchors, "outbound": wc.outbound, "trace": trace}));
@@ -121,8 +164,8 @@ impl Prop for C10 {
     fn strategy(&self, tier: Tier) -> BoxedStrategy<Case> {
         let n = tier.pick(40usize, 100usize);
         let api = (prop::bool::weighted(0.4), any::<bool>(), prop::bool::weighted(0.4), proptest::collection::vec(op_strat(true), 1..n), prop::bool::weighted(0.15)).prop_map(|(cloud, anchors, full_window, ops, redb)| Case { cloud: cloud && !redb, anchors, full_window, ops, wire: None, redb });
-        let wire = (4u8..7, any::<bool>(), any::<bool>(), proptest::collection::vec(crate::props::holder::op_strat(2, 2), 1..n))
-            .prop_map(|(version, anchors, outbound, ops)| Case { cloud: false, anchors, full_window: false, ops: vec![], wire: Some(WireCase { version, outbound, ops }), redb: false });
+        let wire = (4u8..7, any::<bool>(), any::<bool>(), proptest::collection::vec(crate::props::holder::op_strat(2, 2), 1..n), prop_oneof![2 => Just(0u8), 1 => 1u8..7])
+            .prop_map(|(version, anchors, outbound, ops, setup_unannounced)| Case { cloud: false, anchors, full_window: false, ops: vec![], wire: Some(WireCase { version, outbound, ops, setup_unannounced }), redb: false });
         prop_oneof![4 => api, 1 => wire].boxed()
     }
     fn run(&self, case: &Case, st: &mut CaseStats, ctx: &Ctx) -> Result<(), Violation> {
